@@ -159,7 +159,32 @@ def handleIdx (s : Store) : List Sexp → Option (Store × String)
           | .panic => some (s, "panic"))
     else if op == "get" || op == "cget" then
       handleGet s op n 0
+    else if op == "empty" then do
+      let showR : Res Bool → String := fun
+        | .ok b => toString b
+        | .panic => "panic"
+      match ← s.get n with
+      | .rel m => some (s, toString (HMap.isEmpty m))
+      | .full m => some (s, toString (HMap.isEmpty m))
+      | .lat m => some (s, toString (HMap.isEmpty m))
+      | .crel c => some (s, showR c.isEmpty)
+      | .cfull c => some (s, showR c.isEmpty)
+      | .clat c => some (s, showR c.isEmpty)
+      | _ => none
     else none
+  | [.atom "combempty", .atom a, .atom b] => do
+    -- `ind1.is_empty() && ind2.is_empty()` short-circuits: the second side is only looked at when the first is empty
+    let both : Res Bool → Res Bool → String := fun
+      | .ok false, _ => "false"
+      | .ok true, .ok y => toString (combinedIsEmpty true y)
+      | _, _ => "panic"
+    match ← s.get a, ← s.get b with
+    | .rel x, .rel y => some (s, toString (combinedIsEmpty (HMap.isEmpty x) (HMap.isEmpty y)))
+    | .full x, .full y => some (s, toString (combinedIsEmpty (HMap.isEmpty x) (HMap.isEmpty y)))
+    | .lat x, .lat y => some (s, toString (combinedIsEmpty (HMap.isEmpty x) (HMap.isEmpty y)))
+    | .crel x, .crel y => some (s, both x.isEmpty y.isEmpty)
+    | .cfull x, .cfull y => some (s, both x.isEmpty y.isEmpty)
+    | _, _ => none
   | [.atom "comball", .atom a, .atom b] => do
     match ← s.get a, ← s.get b with
     | .rel x, .rel y => some (s, showEntries (x.entries ++ y.entries))
